@@ -10,8 +10,12 @@ Docs == <<
   <<>>,
   << AttrI("n", "call", <<"c1", "c2">>, "c3"), AttrI("h", "here2", <<>>, ""), BlockI("blk", <<>>, <<AttrI("h", "here3", <<"c2">>, "")>>, <<>>) >>,
   << BlockI("blk", <<>>, <<>>, <<>>), AttrI("a", "cond", <<>>, ""), NoteI("c3"), AttrI("b", "trav", <<>>, "") >>,
-  << NoteI("c2"), NoteI("c1"), BlockI("srv", <<"y">>, <<NoteI("c1"), AttrI("n", "list", <<>>, "c1"), NoteI("c2")>>, <<"c1", "c1">>) >> >>
-Init == \E i \in 1..Len(Docs) : doc = Docs[i] /\ hist = <<[op |-> "Load", doc |-> Docs[i], i |-> i]>>
+  << NoteI("c2"), NoteI("c1"), BlockI("srv", <<"y">>, <<NoteI("c1"), AttrI("n", "list", <<>>, "c1"), NoteI("c2")>>, <<"c1", "c1">>) >>,
+  << AttrI("a", "idxt", <<>>, ""), BlockI("srv", <<>>, <<AttrI("b", "one", <<>>, "")>>, <<>>), BlockI("blk", <<"x">>, <<>>, <<>>), AttrI("n", "idxn", <<>>, "c2") >> >>
+(* which file is laid out how: every file plainly; the last one (index keys, an empty and a one-attribute block) in every layout; some others in one more *)
+DocLays == {<<i, "plain">> : i \in 1..Len(Docs)} \cup {<<Len(Docs), lay>> : lay \in Layouts}
+           \cup {<<1, "midnote">>, <<1, "noeol">>, <<2, "bom">>, <<4, "crlf">>, <<5, "oneline">>, <<6, "midnote">>, <<5, "noeol">>, <<2, "noeol">>}
+Init == \E dl \in DocLays : doc = Docs[dl[1]] /\ hist = <<[op |-> "Load", doc |-> Docs[dl[1]], i |-> dl[1], lay |-> dl[2]]>>
 Spec == Init /\ [][Next]_vars
 Emit == (Len(hist) = MaxEdits) => PrintT(<<"BEHAVIOUR", ToJson(hist)>>)
 view == <<doc, hist>>
